@@ -20,6 +20,7 @@ import (
 	"time"
 
 	"github.com/graphql-go/graphql"
+	"github.com/graphql-go/graphql/gqlerrors"
 	"github.com/graphql-go/graphql/language/ast"
 	"github.com/graphql-go/graphql/language/parser"
 
@@ -38,6 +39,7 @@ type leftEv struct {
 
 type world struct {
 	fails    []bool
+	failKind []int // which error a failing resolver returns, see failError
 	observes []bool
 	gate     []chan struct{} // closed = released; index 0..n-1 resolvers
 	coerce   chan struct{}   // gate of the custom scalar's ParseValue (nil = no coercion gate)
@@ -68,13 +70,83 @@ func resolver(k int) graphql.FieldResolveFn {
 			return nil, p.Context.Err()
 		}
 		if w.fails[k] {
-			return nil, errors.New("resolver failed")
+			kind := 0
+			if k < len(w.failKind) {
+				kind = w.failKind[k]
+			}
+			return nil, failError(kind, p.Context)
 		}
 		return 100 + k, nil
 	}
 }
 
-func buildSchema() graphql.Schema {
+// failError: the error a failing resolver returns while the REQUEST context may well be live. Kinds 1..6 are or wrap
+// context.Canceled / context.DeadlineExceeded (a plain sentinel, a wrapped upstream error, the error of a context the
+// resolver derived for a call of its own): they are ordinary field errors — one error per failed field, with its path.
+func failError(kind int, ctx context.Context) error {
+	switch kind {
+	case 1:
+		return context.Canceled
+	case 2:
+		return context.DeadlineExceeded
+	case 3:
+		return fmt.Errorf("upstream call: %w", context.Canceled)
+	case 4:
+		d, cancel := context.WithDeadline(ctx, time.Now().Add(-time.Second))
+		defer cancel()
+		return d.Err()
+	case 5:
+		d, cancel := context.WithDeadline(ctx, time.Now().Add(-time.Second))
+		defer cancel()
+		return fmt.Errorf("loader: %w", d.Err())
+	case 6:
+		d, cancel := context.WithCancel(ctx)
+		cancel()
+		return d.Err()
+	}
+	return errors.New("resolver failed")
+}
+
+var failMessage = []string{"resolver failed", "context canceled", "context deadline exceeded", "upstream call: context canceled",
+	"context deadline exceeded", "loader: context deadline exceeded", "context canceled"}
+
+// ctxExt: an extension whose ExecutionDidStart hands back another context. The context ExecutePlan watches (and the
+// one whose error it reports) must be the CALLER's in every mode.
+type ctxExt struct{ mode string }
+
+type ctxExtKey struct{}
+
+func (e *ctxExt) Init(ctx context.Context, p *graphql.Params) context.Context { return ctx }
+func (e *ctxExt) Name() string                                                { return "ctxext" }
+func (e *ctxExt) ParseDidStart(ctx context.Context) (context.Context, graphql.ParseFinishFunc) {
+	return ctx, func(error) {}
+}
+func (e *ctxExt) ValidationDidStart(ctx context.Context) (context.Context, graphql.ValidationFinishFunc) {
+	return ctx, func([]gqlerrors.FormattedError) {}
+}
+func (e *ctxExt) ExecutionDidStart(ctx context.Context) (context.Context, graphql.ExecutionFinishFunc) {
+	fin := func(*graphql.Result) {}
+	switch e.mode {
+	case "child":
+		return context.WithValue(ctx, ctxExtKey{}, "span"), fin
+	case "detached":
+		return context.WithValue(context.WithoutCancel(ctx), ctxExtKey{}, "span"), fin
+	case "background":
+		return context.WithValue(context.Background(), ctxExtKey{}, "span"), fin
+	case "nil":
+		return nil, fin
+	}
+	return ctx, fin
+}
+func (e *ctxExt) ResolveFieldDidStart(ctx context.Context, i *graphql.ResolveInfo) (context.Context, graphql.ResolveFieldFinishFunc) {
+	return ctx, func(interface{}, error) {}
+}
+func (e *ctxExt) HasResult() bool                       { return false }
+func (e *ctxExt) GetResult(context.Context) interface{} { return nil }
+
+var extModes = []string{"", "same", "child", "detached", "background", "nil"}
+
+func buildSchema(ext string) graphql.Schema {
 	gateScalar := graphql.NewScalar(graphql.ScalarConfig{
 		Name:      "Gate",
 		Serialize: func(v interface{}) interface{} { return v },
@@ -110,10 +182,14 @@ func buildSchema() graphql.Schema {
 		}
 		mfields[fmt.Sprintf("m%d", k)] = f
 	}
-	schema, err := graphql.NewSchema(graphql.SchemaConfig{
+	cfg := graphql.SchemaConfig{
 		Query:    graphql.NewObject(graphql.ObjectConfig{Name: "Query", Fields: fields}),
 		Mutation: graphql.NewObject(graphql.ObjectConfig{Name: "Mutation", Fields: mfields}),
-	})
+	}
+	if ext != "" {
+		cfg.Extensions = []graphql.Extension{&ctxExt{mode: ext}}
+	}
+	schema, err := graphql.NewSchema(cfg)
 	if err != nil {
 		panic(err)
 	}
@@ -158,7 +234,10 @@ type errEntry struct {
 	Path []string `json:"path"`
 }
 
-func canonResult(r *graphql.Result) string {
+// canonResult: data and error paths. A field error is marked as "the resolver saw the done request context" from what
+// the resolver itself recorded (sawCtx: field name -> the context error's name), never from the message text: a
+// resolver may fail with context.Canceled of its own while the request context is live.
+func canonResult(r *graphql.Result, sawCtx map[string]string) string {
 	if r == nil {
 		return "nil-result"
 	}
@@ -184,11 +263,15 @@ func canonResult(r *graphql.Result) string {
 			p = append(p, fmt.Sprint(k))
 		}
 		c := ""
-		switch e.Message {
-		case context.Canceled.Error():
-			c = "canceled"
-		case context.DeadlineExceeded.Error():
-			c = "deadline"
+		if len(p) == 0 {
+			switch e.Message {
+			case context.Canceled.Error():
+				c = "canceled"
+			case context.DeadlineExceeded.Error():
+				c = "deadline"
+			}
+		} else {
+			c = sawCtx[p[0]]
 		}
 		errs = append(errs, errEntry{Ctx: c, Path: p})
 	}
@@ -248,6 +331,11 @@ type caseT struct {
 	Ctx   string `json:"ctx"`   // cancel | manualDeadline | timeout | pastDeadline
 	Entry string `json:"entry"` // do | plan
 	Op    string `json:"op"`    // query (default) | mutation (serial top-level fields m0 … m(n-1))
+	// FailKind[k]: the error a failing resolver k returns (0 plain, 1 context.Canceled, 2 DeadlineExceeded, 3 wrapped
+	// Canceled, 4 error of a derived expired context, 5 the same wrapped, 6 error of a derived cancelled context)
+	FailKind []int `json:"failKind,omitempty"`
+	// Ext: "" no extension | same | child | detached | background | nil — what the extension's ExecutionDidStart returns
+	Ext string `json:"ext,omitempty"`
 }
 
 type observation struct {
@@ -305,8 +393,11 @@ func main() {
 		return
 	}
 	defer drv.Close()
-	schema := buildSchema()
-	run.Res.Rule = "query { f0 … f(n-1) } and mutation { m0 … m(n-1) } (serial top-level fields) with n = 0..6 sequential top-level resolvers, each blocking on its own gate; every resolver fails or not and watches ctx.Done() or not; optional gate inside variable coercion (custom scalar ParseValue); the context ends at one point: never / before the call / while step k is blocked (every k) / after the call returned / concurrently with the release of step k (race); context kinds: cancel, harness-triggered deadline (custom Context, Err = DeadlineExceeded), real WithTimeout, deadline already past, and the same with an explicit cause (WithCancelCause, WithTimeoutCause, WithDeadlineCause — own and inherited from a parent context; the response must carry ctx.Err(), not context.Cause); entries graphql.Do and PlanQuery+ExecutePlan; the run is recorded as model actions and validated by the compiled Lean model, the returned Result is compared with the model's expected Result; non-trivial = n >= 1; distinct by the whole case"
+	schemas := map[string]graphql.Schema{}
+	for _, m := range extModes {
+		schemas[m] = buildSchema(m)
+	}
+	run.Res.Rule = "query { f0 … f(n-1) } and mutation { m0 … m(n-1) } (serial top-level fields) with n = 0..6 sequential top-level resolvers, each blocking on its own gate; every resolver fails or not (with a plain error, or with context.Canceled / DeadlineExceeded of its own: sentinel, wrapped, or the error of a context it derived — ordinary field errors while the request context is live) and watches ctx.Done() or not; optionally an extension whose ExecutionDidStart returns the same / a child / a detached / a Background-based / a nil context (the caller's context must stay the watched one); optional gate inside variable coercion (custom scalar ParseValue); the context ends at one point: never / before the call / while step k is blocked (every k) / after the call returned / concurrently with the release of step k (race); context kinds: cancel, harness-triggered deadline (custom Context, Err = DeadlineExceeded), real WithTimeout, deadline already past, and the same with an explicit cause (WithCancelCause, WithTimeoutCause, WithDeadlineCause — own and inherited from a parent context; the response must carry ctx.Err(), not context.Cause); entries graphql.Do and PlanQuery+ExecutePlan; the run is recorded as model actions and validated by the compiled Lean model, the returned Result is compared with the model's expected Result; non-trivial = n >= 1; distinct by the whole case"
 
 	one := func(c caseT) {
 		steps := c.N
@@ -319,7 +410,8 @@ func main() {
 		}
 		runtime.Gosched()
 		baseline := runtime.NumGoroutine()
-		w := &world{fails: c.Fails, observes: c.Observes, entered: make(chan int, 4*maxN+8), left: make(chan leftEv, 4*maxN+8)}
+		schema := schemas[c.Ext]
+		w := &world{fails: c.Fails, failKind: c.FailKind, observes: c.Observes, entered: make(chan int, 4*maxN+8), left: make(chan leftEv, 4*maxN+8)}
 		for k := 0; k < c.N; k++ {
 			w.gate = append(w.gate, make(chan struct{}))
 		}
@@ -557,7 +649,37 @@ func main() {
 		// what had ended when the call returned (only steps whose gate was released or that watch the context can have)
 		flushLeft()
 		obs.LeftAtRet = len(lefts)
-		resultCanon := canonResult(res)
+		pre := map[bool]string{false: "f", true: "m"}[c.Op == "mutation"]
+		sawCtx := map[string]string{}
+		for _, l := range lefts {
+			if l.saw && l.k >= 0 {
+				sawCtx[fmt.Sprintf("%s%d", pre, l.k)] = ctxName
+			}
+		}
+		resultCanon := canonResult(res, sawCtx)
+		// every field error must carry the message of the error its resolver returned
+		msgFault := ""
+		if res != nil {
+			for _, e := range res.Errors {
+				if len(e.Path) == 0 {
+					continue
+				}
+				var k int
+				if _, err := fmt.Sscanf(fmt.Sprint(e.Path[0]), pre+"%d", &k); err != nil || k < 0 || k >= c.N {
+					continue
+				}
+				want := failMessage[0]
+				if k < len(c.FailKind) && c.FailKind[k] < len(failMessage) {
+					want = failMessage[c.FailKind[k]]
+				}
+				if _, saw := sawCtx[fmt.Sprint(e.Path[0])]; saw && ctx.Err() != nil {
+					want = ctx.Err().Error()
+				}
+				if e.Message != want && msgFault == "" {
+					msgFault = fmt.Sprintf("the error of field %v reads %q, its resolver returned %q", e.Path[0], e.Message, want)
+				}
+			}
+		}
 		obs.Result = resultCanon
 		// context-error class by shape (no data, one error without a path); that the error is exactly the context's
 		// own error (ctx.Err(): Canceled / DeadlineExceeded — not context.Cause) is checked separately below
@@ -638,6 +760,15 @@ func main() {
 		run.Tag(fmt.Sprintf("n:%d", c.N))
 		run.Tag("ctx:" + c.Ctx)
 		run.Tag("entry:" + c.Entry)
+		if c.Ext != "" {
+			run.Tag("extension-context:" + c.Ext)
+		}
+		for k, f := range c.Fails {
+			if f && k < len(c.FailKind) && c.FailKind[k] > 0 {
+				run.Tag("a-resolver-fails-with-a-context-error-of-its-own")
+				break
+			}
+		}
 		if c.Op == "mutation" {
 			run.Tag("op:mutation")
 		} else {
@@ -688,6 +819,8 @@ func main() {
 			bad = "harness fault: the recorded run does not contain the caller's return"
 		case ctxErrFault != "":
 			bad = ctxErrFault
+		case msgFault != "":
+			bad = msgFault
 		case recanon(m.Expected) != resultCanon:
 			bad = "the returned Result is neither the complete normal response nor exactly the context error: it differs from the model's"
 		case obs.Executors != 0:
@@ -696,6 +829,9 @@ func main() {
 			bad = fmt.Sprintf("runtime.NumGoroutine() is %d above the baseline after settle", obs.Goroutines)
 		case m.Executor != "sent":
 			bad = "the background executor never reached its send although every gate was released"
+		}
+		if bad != "" && c.Ext != "" {
+			bad += fmt.Sprintf("; the schema has an extension whose ExecutionDidStart returns a %q context: the context ExecutePlan watches and reports must stay the caller's", c.Ext)
 		}
 		if bad != "" {
 			if strings.HasPrefix(bad, "harness fault") {
@@ -725,6 +861,7 @@ func main() {
 	// ---- enumeration: all n, all points, all context kinds, both entries; resolver kinds exhaustive for small n,
 	// seeded samples above
 	timerIdx := map[string]int{}
+	caseNo := 0
 	kindSets := func(n int, rg *hx.Rng, samples int) [][2][]bool {
 		var out [][2][]bool
 		if n <= 2 {
@@ -802,10 +939,45 @@ func main() {
 									if op == "mutation" && !run.Thorough() && (strings.Contains(cx, "Cause") || (race && n > 3)) {
 										continue // quick tier: mutations with the plain context kinds
 									}
-									one(caseT{N: n, Fails: ks[0], Observes: ks[1], Coerce: coerce, Point: point, Race: race, Ctx: cx, Entry: entry, Op: op})
+									caseNo++
+									fk := make([]int, n)
+									for k := range fk {
+										if ks[0][k] {
+											fk[k] = (caseNo + 3*k) % len(failMessage) // a failing resolver's error kind varies
+										}
+									}
+									for _, ext := range extModes {
+										if ext != "" && (race || coerce || (cx != "cancel" && cx != "manualDeadline") ||
+											(!run.Thorough() && (n > 3 || op == "mutation" || caseNo%2 == 0))) {
+											continue // the extension dimension: plain cancel / deadline at every point
+										}
+										one(caseT{N: n, Fails: ks[0], Observes: ks[1], Coerce: coerce, Point: point, Race: race, Ctx: cx, Entry: entry, Op: op, FailKind: fk, Ext: ext})
+									}
 								}
 							}
 						}
+					}
+				}
+			}
+		}
+	}
+	// several fields of one request fail with the SAME context error text while the request context is live (or ends
+	// only after the call returned): the full response carries one error per failed field
+	for n := 2; n <= 4 && !run.TooManyViolations(); n++ {
+		pats := [][]int{{1, 1, 1, 1}, {2, 2, 2, 2}, {3, 3, 3, 3}, {4, 4, 4, 4}, {5, 5, 5, 5}, {6, 6, 6, 6}, {1, 6, 1, 6}, {2, 4, 4, 2}, {3, 0, 3, 3}, {6, 1, 0, 1}}
+		for _, pat := range pats {
+			for _, point := range []int{-2, n, n - 1} {
+				for _, entry := range []string{"do", "plan"} {
+					for _, op := range []string{"query", "mutation"} {
+						f, o := make([]bool, n), make([]bool, n)
+						for k := range f {
+							f[k] = true
+						}
+						if point == n-1 {
+							f[n-1] = false // the last step is the blocked one when the context ends
+						}
+						one(caseT{N: n, Fails: f, Observes: o, Point: point, Ctx: "cancel", Entry: entry, Op: op, FailKind: pat[:n]})
+						run.Tag("context-error-of-its-own-sweep")
 					}
 				}
 			}
